@@ -594,4 +594,57 @@ theorem Rsp.exception_of_code (code : UInt8) (h : code ∈ Spec.excCodes) : ∃ 
   · exact ⟨.gatewayTargetDevice, rfl⟩
 
 
+
+/-! ### the meaning of a built response, read through its own accessors -/
+
+/-- `m` is what the built value itself means to a user iterating over its payload: the relation
+    `BuiltRsp` is not an arbitrary labelling -/
+theorem BuiltRsp.sem_eq {r : Response} {m : Spec.RspMeaning} (hb : BuiltRsp r m) : r.sem = some m := by
+  cases hb with
+  | readCoils h =>
+    obtain ⟨_, _, rfl⟩ := Rsp.fromBools_ok h
+    simp [Response.sem, Coils.items, Coils.iter_packBits]
+  | readDiscreteInputs h =>
+    obtain ⟨_, _, rfl⟩ := Rsp.fromBools_ok h
+    simp [Response.sem, Coils.items, Coils.iter_packBits]
+  | readHoldingRegisters h =>
+    obtain ⟨_, rfl⟩ := Rsp.fromWords_ok h
+    simp [Response.sem, Data.items_wordsBE]
+  | readInputRegisters h =>
+    obtain ⟨_, rfl⟩ := Rsp.fromWords_ok h
+    simp [Response.sem, Data.items_wordsBE]
+  | readWriteMultipleRegisters h =>
+    obtain ⟨_, rfl⟩ := Rsp.fromWords_ok h
+    simp [Response.sem, Data.items_wordsBE]
+  | writeSingleCoil a => rfl
+  | writeSingleRegister a w => rfl
+  | writeMultipleCoils a q => rfl
+  | writeMultipleRegisters a q => rfl
+  | custom fc d => rfl
+
+/-- every meaning with a non-empty payload is the meaning of some built response (the constructors
+    accept any payload length): `BuiltRsp` has instances for every `m` that `fits` — and beyond -/
+theorem BuiltRsp.exists_of_nonempty (m : Spec.RspMeaning)
+    (hne : match m with
+      | .readCoils bs | .readDiscreteInputs bs => bs ≠ []
+      | .readHoldingRegisters ws | .readInputRegisters ws | .readWriteMultipleRegisters ws => ws ≠ []
+      | _ => True) : ∃ r, BuiltRsp r m := by
+  cases m with
+  | readCoils bs =>
+    exact ⟨_, .readCoils (C16.from_bools_spec bs (List.replicate (packedCoilsLen bs.length) 0) hne (by simp))⟩
+  | readDiscreteInputs bs =>
+    exact ⟨_, .readDiscreteInputs (C16.from_bools_spec bs (List.replicate (packedCoilsLen bs.length) 0) hne (by simp))⟩
+  | readHoldingRegisters ws =>
+    exact ⟨_, .readHoldingRegisters (C17.from_words_spec ws (List.replicate (ws.length * 2) 0) hne (by simp))⟩
+  | readInputRegisters ws =>
+    exact ⟨_, .readInputRegisters (C17.from_words_spec ws (List.replicate (ws.length * 2) 0) hne (by simp))⟩
+  | readWriteMultipleRegisters ws =>
+    exact ⟨_, .readWriteMultipleRegisters (C17.from_words_spec ws (List.replicate (ws.length * 2) 0) hne (by simp))⟩
+  | writeSingleCoil a => exact ⟨_, .writeSingleCoil a⟩
+  | writeSingleRegister a w => exact ⟨_, .writeSingleRegister a w⟩
+  | writeMultipleCoils a q => exact ⟨_, .writeMultipleCoils a q⟩
+  | writeMultipleRegisters a q => exact ⟨_, .writeMultipleRegisters a q⟩
+  | custom c d => exact ⟨_, C18.value_custom c ▸ BuiltRsp.custom (.custom c) d⟩
+
+
 end Modbus
